@@ -5,11 +5,11 @@ import PyAirtouch.Model.Bytes
 
 * `ac_name : str` is represented by its UTF-8 bytes.
 * `Mapping[enum, bool]` fields are Python dicts: association lists in insertion order.
-* In the pinned source the AirTouch 5 decoder is not an offset loop: it first rejects a
-  `message_length` that is not a multiple of the fixed struct size 26 and then runs
-  `for _ in range(message_length // 26)`, each time unpacking from the front of the buffer and
-  slicing it.  The "following length" byte of every record is ignored by the decoder (the encoder
-  always writes 24), so records are always 26 bytes whatever that byte says.
+* The decoder is the `while remaining_length > 0:` loop of the source (`remaining_length` starts at
+  `header.message_length`): each iteration unpacks the fixed struct (26 bytes) from the front of the
+  buffer, rejects (`DecodeError`) a record whose length `2 + L` (`L` = the "following length" byte) is
+  below 26 or above the remaining announced length, and slices `2 + L` bytes off the buffer (bytes of the
+  record after the known ones are skipped).  Defined by well-founded recursion on the remaining length.
 -/
 namespace PyAirtouch.Model.At5.FF11
 open PyAirtouch.Model PyAirtouch.Gen.At5.X1FFF11AcAbility
@@ -116,34 +116,40 @@ def decFanSpeedSupport (b : Nat) : List (AcFanSpeedControl × Bool) :=
    (.HIGH, bitToBool b 4), (.POWERFUL, bitToBool b 5), (.TURBO, bitToBool b 6),
    (.INTELLIGENT_AUTO, bitToBool b 7), (.UNCHANGED, true)]
 
-/-- one iteration of the `for` loop: `_STRUCT.unpack_from(buffer)`, `buffer = buffer[26:]`, then the
-    `AcAbility(...)` constructor call (whose only argument that can raise is `decode_c_string`);
-    the following-length byte is unpacked into `_` and never looked at -/
-def decRec (bs : Bytes) : Except DecErr (AcAbility × Bytes) :=
+/-- one iteration of the loop on the current `buffer`, with `remaining = remaining_length`:
+    `_STRUCT.unpack_from(buffer)`, the test of `record_length = 2 + following_length`, then (after the
+    slice, which cannot raise) the `AcAbility(...)` constructor call (whose only argument that can raise is
+    `decode_c_string`).  Returns the record and its following length; the caller slices `2 + following`. -/
+def decRec (bs : Bytes) (remaining : Nat) : Except DecErr (AcAbility × Nat) :=
   match bs with
-  | acNumber :: _following :: r =>
+  | acNumber :: following :: r =>
     match r.drop nameLen with
-    | startZone :: zoneCount :: b23 :: b24 :: minCool :: maxCool :: minHeat :: maxHeat :: rest =>
+    | startZone :: zoneCount :: b23 :: b24 :: minCool :: maxCool :: minHeat :: maxHeat :: _ =>
+      if 2 + following < STRUCT_size ∨ remaining < 2 + following then .error .decodeError
+      else
       match decodeCString (r.take nameLen) with
       | .error e => .error e
       | .ok name =>
         .ok ({ ac_number := acNumber, ac_name := name, start_zone := startZone, zone_count := zoneCount,
                ac_mode_support := decModeSupport b23, fan_speed_support := decFanSpeedSupport b24,
                min_cool_set_point := minCool, max_cool_set_point := maxCool,
-               min_heat_set_point := minHeat, max_heat_set_point := maxHeat }, rest)
+               min_heat_set_point := minHeat, max_heat_set_point := maxHeat }, following)
     | _ => .error .structError
   | _ => .error .structError
 
-/-- `for _ in range(n): ...` -/
-def decRecs : Nat → Bytes → Except DecErr (List AcAbility × Bytes)
-  | 0, bs => .ok ([], bs)
-  | n+1, bs =>
-    match decRec bs with
+/-- `while remaining_length > 0: ...`; returns the abilities and the final (sliced) buffer.
+    Terminates because `remaining` decreases by `2 + following`. -/
+def decLoop (bs : Bytes) (remaining : Nat) : Except DecErr (List AcAbility × Bytes) :=
+  if _h : 0 < remaining then
+    match decRec bs remaining with
     | .error e => .error e
-    | .ok (ac, rest) =>
-      match decRecs n rest with
+    | .ok (ac, following) =>
+      match decLoop (bs.drop (2 + following)) (remaining - (2 + following)) with
       | .error e => .error e
-      | .ok (acs, rest') => .ok (ac :: acs, rest')
+      | .ok (acs, rest) => .ok (ac :: acs, rest)
+  else .ok ([], bs)
+termination_by remaining
+decreasing_by omega
 
 /-- `AcAbilityDecoder.decode(buffer, header)`; `msgLen` is `header.message_length` -/
 def decode (buffer : Bytes) (msgLen : Nat) : Except DecErr (Msg × Bytes) :=
@@ -152,9 +158,8 @@ def decode (buffer : Bytes) (msgLen : Nat) : Except DecErr (Msg × Bytes) :=
     match buffer with
     | [] => .error .indexError                     -- `buffer[0]`
     | b :: rest => .ok (.request (some b), rest)
-  else if msgLen % recSize ≠ 0 then .error .decodeError
   else
-    match decRecs (msgLen / recSize) buffer with
+    match decLoop buffer msgLen with
     | .error e => .error e
     | .ok (acs, rest) => .ok (.ability acs, rest)
 
